@@ -993,6 +993,11 @@ type swamp struct {
 	// capMu, so existing throughput is unaffected.
 	capMu sync.Mutex
 
+	// beaconBuildMu serialises the lazy build of the ordered beacons, so a
+	// caller never walks a beacon that another caller is still filling and
+	// two callers never fill the same beacon twice.
+	beaconBuildMu sync.Mutex
+
 	// creatingTreasures tracks treasures that have been created via CreateTreasure but not yet
 	// persisted (no Save call). Concurrent CreateTreasure calls for the same key must return the
 	// same in-flight treasure object so that subsequent guarded operations serialize correctly.
@@ -3177,6 +3182,9 @@ func (s *swamp) treasuresForBeacon(bc BeaconType) map[string]treasure.Treasure {
 }
 
 func (s *swamp) buildBeacon(beaconASC beacon.Beacon, beaconDESC beacon.Beacon, bc BeaconType) {
+
+	s.beaconBuildMu.Lock()
+	defer s.beaconBuildMu.Unlock()
 
 	// build the index only if it is not initialized
 	if beaconASC.IsInitialized() && beaconDESC.IsInitialized() {
